@@ -16,7 +16,9 @@ CONSTANTS Chans,            \* channel indices
           MaxSteps,         \* bound on history length
           OffResetsPause,   \* FALSE = tree before the fix: SetOFF does not clear WritingPaused
           CountEntries,     \* design variant (FALSE = as the code is): next run number = number of entries of the date directory
-          MaxRemovals       \* how many run directories the operator removes in a history
+          MaxRemovals,      \* how many run directories the operator removes in a history
+          Paths,            \* base paths a START request may name (besides "keep" = no path in the request, "bad" = a path below which no directory can be made)
+          RejectedSetsBase  \* deviation (FALSE = as the code is): a START refused for its uncreatable path has already replaced the remembered base path
 
 Types == {"L22", "L3", "OFF"}
 TypeSets == SUBSET Types
@@ -31,7 +33,9 @@ vars == <<proj, rep, wp, wr, ndirs, body, want, stateF, extF, dropF, wantState, 
 
 NoClosed == [valid |-> FALSE, body |-> <<>>, want |-> <<>>, state |-> <<>>, wantState |-> <<>>,
              ext |-> <<>>, wantExt |-> <<>>, drop |-> <<>>, wantDrop |-> <<>>]
-NoRep == [active |-> FALSE, paused |-> FALSE, types |-> {}, dir |-> 0]
+NoDir == <<"", 0>>      \* a run directory is <<base path, run number>>
+NoRep == [active |-> FALSE, paused |-> FALSE, types |-> {}, dir |-> NoDir, base |-> ""]
+PathArgs == Paths \cup {"keep", "bad"}
 Empty == [c \in Chans |-> [t \in Types |-> <<>>]]
 
 Init == /\ proj \in ProjSets
@@ -45,8 +49,8 @@ Init == /\ proj \in ProjSets
 Elig(c, t) == t # "OFF" \/ c \in proj
 \* makeDirectory probes 0000, 0001, ... and takes the first name that does not exist (CountEntries = FALSE, as the code
 \* is); the variant takes the number of entries of the date directory as the next number
-NextDir == IF CountEntries THEN Cardinality(onDisk) + 1
-           ELSE CHOOSE n \in 1..(MaxSteps + 1) : n \notin onDisk /\ \A m \in 1..(n - 1) : m \in onDisk
+NextDir(b) == IF CountEntries THEN <<b, Cardinality({d \in onDisk : d[1] = b}) + 1>>
+              ELSE <<b, CHOOSE n \in 1..(MaxSteps + 1) : <<b, n>> \notin onDisk /\ \A m \in 1..(n - 1) : <<b, m>> \in onDisk>>
 Tick(a, ok) == /\ steps' = steps + 1 /\ act' = a /\ lastOK' = ok /\ repBefore' = rep /\ diskBefore' = onDisk
 
 Rejected(a) == /\ Tick(a, FALSE)
@@ -54,18 +58,27 @@ Rejected(a) == /\ Tick(a, FALSE)
                               wantState, wantExt, wantDrop, closed, np, onDisk, nrm>>
 
 \* ------------------------------------------------------------------ requests, as the code does them
-Start(T) ==
-  LET a == [k |-> "req", req |-> "START", types |-> T] IN
-  IF T = {} \/ (\E c \in Chans : wr[c] # {}) \/ ("OFF" \in T /\ proj = {})
-  THEN Rejected(a)
-  ELSE /\ Tick(a, TRUE)
+\* p: the request's Path ("keep" = none: the base path of the last accepted START is used again)
+Start(T, p) ==
+  LET a == [k |-> "req", req |-> "START", types |-> T, path |-> p]
+      eff == IF p = "keep" THEN rep.base ELSE p IN
+  /\ ~(p = "keep" /\ rep.base = "")          \* (a first START without a path is left out: it would write below the working directory)
+  /\ IF T = {} \/ (\E c \in Chans : wr[c] # {}) \/ ("OFF" \in T /\ proj = {})
+     THEN Rejected(a)
+     ELSE IF eff = "bad"
+     THEN IF RejectedSetsBase
+          THEN /\ Tick(a, FALSE) /\ rep' = [rep EXCEPT !.base = "bad"]
+               /\ UNCHANGED <<proj, wp, wr, ndirs, body, want, stateF, extF, dropF, wantState, wantExt, wantDrop, closed, np, onDisk, nrm>>
+          ELSE Rejected(a)
+     ELSE
+       /\ Tick(a, TRUE)
        /\ ndirs' = ndirs + 1 /\ nrm' = nrm
-       /\ onDisk' = onDisk \cup {NextDir}
+       /\ onDisk' = onDisk \cup {NextDir(eff)}
        /\ wr' = [c \in Chans |-> {t \in T : Elig(c, t)}]
        /\ wp' = [c \in Chans |->
                    IF "L22" \in T \/ "L3" \in T \/ (OffResetsPause /\ "OFF" \in T /\ c \in proj)
                    THEN FALSE ELSE wp[c]]
-       /\ rep' = [active |-> TRUE, paused |-> FALSE, types |-> T, dir |-> NextDir]
+       /\ rep' = [active |-> TRUE, paused |-> FALSE, types |-> T, dir |-> NextDir(eff), base |-> eff]
        /\ body' = Empty /\ want' = Empty
        /\ stateF' = <<"START">> /\ wantState' = <<"START">>
        /\ extF' = <<>> /\ dropF' = <<>> /\ wantExt' = <<>> /\ wantDrop' = <<>>
@@ -75,7 +88,7 @@ Start(T) ==
 Stop ==
   /\ Tick([k |-> "req", req |-> "STOP"], TRUE)
   /\ wr' = [c \in Chans |-> {}]
-  /\ rep' = NoRep
+  /\ rep' = [NoRep EXCEPT !.base = rep.base]        \* the base path is remembered across sessions
   /\ closed' = IF rep.active
                THEN [valid |-> TRUE, body |-> body, want |-> want, state |-> Append(stateF, "STOP"),
                      wantState |-> Append(wantState, "STOP"), ext |-> extF, wantExt |-> wantExt,
@@ -128,14 +141,14 @@ Block(ext, drop) ==
   /\ want' = [c \in Chans |-> [t \in Types |->
                  IF rep.active /\ ~rep.paused /\ t \in rep.types /\ Elig(c, t)
                  THEN Append(want[c][t], np + 1) ELSE want[c][t]]]
-  /\ extF' = IF rep.dir # 0 THEN extF \o ext ELSE extF
+  /\ extF' = IF rep.dir # NoDir THEN extF \o ext ELSE extF
   /\ wantExt' = IF rep.active THEN wantExt \o ext ELSE wantExt
   /\ dropF' = IF drop > 0 /\ rep.active THEN Append(dropF, drop) ELSE dropF
   /\ wantDrop' = IF drop > 0 /\ rep.active THEN Append(wantDrop, drop) ELSE wantDrop
   /\ UNCHANGED <<proj, rep, wp, wr, ndirs, stateF, wantState, closed, onDisk, nrm>>
 
 Next == /\ steps < MaxSteps
-        /\ \/ \E T \in TypeSets : Start(T)
+        /\ \/ \E T \in TypeSets : \E p \in PathArgs : Start(T, p)
            \/ Stop \/ Pause \/ Unpause("") \/ \E lab \in Labels : Unpause(lab)
            \/ Garbage \/ UnpauseMalformed
            \/ \E d \in onDisk : RemoveRun(d)
@@ -156,6 +169,9 @@ C06_newdir    == (act.k = "req" /\ act.req = "START" /\ lastOK) => rep.dir \noti
 C06_stop_closes == (act.k = "req" /\ act.req = "STOP") => (\A c \in Chans : wr[c] = {}) /\ ~rep.active
 C06_effect ==
    /\ (act.k = "req" /\ lastOK /\ act.req = "START") => rep.active /\ ~rep.paused /\ rep.types = act.types
+   \* the run directory lies below the path of the request, or below the remembered base path when the request names none
+   /\ (act.k = "req" /\ lastOK /\ act.req = "START") =>
+          LET eff == IF act.path = "keep" THEN repBefore.base ELSE act.path IN rep.base = eff /\ rep.dir[1] = eff
    /\ (act.k = "req" /\ lastOK /\ act.req = "PAUSE" /\ repBefore.active) => rep.active /\ rep.paused
    /\ (act.k = "req" /\ lastOK /\ act.req = "UNPAUSE" /\ repBefore.active) => rep.active /\ ~rep.paused
 C20_files == /\ stateF = wantState /\ extF = wantExt /\ dropF = wantDrop
